@@ -363,10 +363,12 @@ def State.resetReb (s : State) : State := { s with rebAttempts := 0, rebTimeout 
 /-- a step's result: new state and effects in emission order -/
 abbrev R := State × List Eff
 
-def State.alarmAfterSynchrony (s : State) (now : Int) (quality : Bool) : State × List Eff :=
-  let d := if quality then s.cfg.qualityTimeout2 else tableGet s.cfg.timeout2 s.round
-  let t := now + d
-  ({ s with phaseTimeout := t }, [.setAlarm t])
+/-- `alarmAfterSynchronyWithMulti`: `d` is `2*delta` for the round (with the QUALITY multiplier when
+called from `beginQuality`) -/
+def State.alarmAfter (s : State) (now : Int) (d : Int) : State × List Eff :=
+  ({ s with phaseTimeout := now + d }, [.setAlarm (now + d)])
+
+def State.roundTimeout (s : State) : Int := tableGet s.cfg.timeout2 s.round
 
 def rebroadcastEffs (s : State) : List Eff :=
   match s.phase with
@@ -414,14 +416,14 @@ def State.beginQuality (s : State) (now : Int) : R :=
   if s.phase != .initial then (s, [.err .cannotTransition])
   else
     let s1 := { s with phase := .quality }
-    let (s2, a) := s1.alarmAfterSynchrony now true
+    let (s2, a) := s1.alarmAfter now s1.cfg.qualityTimeout2
     let s3 := s2.resetReb
     (s3, [.progress s3.round .quality] ++ a ++ [.broadcast s3.round .quality s3.proposal false none])
 
 /-- `beginPrepare` -/
 def State.beginPrepare (s : State) (now : Int) (j : Option Just) : R :=
   let s1 := { s with phase := .prepare }
-  let (s2, a) := s1.alarmAfterSynchrony now false
+  let (s2, a) := s1.alarmAfter now s1.roundTimeout
   let s3 := s2.resetReb
   (s3, [.progress s3.round .prepare] ++ a ++ [.broadcast s3.round .prepare s3.value false j])
 
@@ -430,60 +432,64 @@ def State.beginConverge (s : State) (now : Int) (j : Just) : R :=
   if j.round + 1 != s.round then (s, [.panic .convergeJustRound])
   else
     let s1 := { s with phase := .converge }
-    let (s2, a) := s1.alarmAfterSynchrony now false
+    let (s2, a) := s1.alarmAfter now s1.roundTimeout
     let s3 := s2.resetReb
     let rs := s3.getRound s3.round
     let s4 := s3.setRound s3.round { rs with converged := rs.converged.setSelf s3.proposal j }
     (s4, [.progress s4.round .converge] ++ a ++ [.broadcast s4.round .converge s4.proposal true (some j)])
 
+/-- the justification `beginNextRound` attaches to the CONVERGE of the round just entered -/
+def State.nextRoundJust (s1 : State) : Except PanicSite Just :=
+  let cur := s1.getRound s1.round
+  let prev := s1.getRound (s1.round - 1)
+  match prev.committed.findStrongQuorumFor s1.tbl [] with
+  | .found sg => .ok { round := s1.round - 1, phase := .commit, value := [], signers := sg }
+  | .panic p => .error p
+  | .none =>
+    match cur.prepared.getJustOf .commit [] with
+    | some j => .ok j
+    | none =>
+      match cur.converged.getJustOf .commit [] with
+      | some j => .ok j
+      | none =>
+        match prev.committed.justs.find? (·.1 == s1.proposal) with
+        | some e => .ok e.2
+        | none => .error .nextRoundNoJust
+
 /-- `beginNextRound` -/
 def State.beginNextRound (s : State) (now : Int) : R :=
   let s1 := { s with round := s.round + 1 }
-  let cur := s1.getRound s1.round
-  let prev := s1.getRound (s1.round - 1)
-  let jr : Except PanicSite Just :=
-    match prev.committed.findStrongQuorumFor s1.tbl [] with
-    | .found sg => .ok { round := s1.round - 1, phase := .commit, value := [], signers := sg }
-    | .panic p => .error p
-    | .none =>
-      match cur.prepared.getJustOf .commit [] with
-      | some j => .ok j
-      | none =>
-        match cur.converged.getJustOf .commit [] with
-        | some j => .ok j
-        | none =>
-          match prev.committed.justs.find? (·.1 == s1.proposal) with
-          | some e => .ok e.2
-          | none => .error .nextRoundNoJust
-  match jr with
+  match s1.nextRoundJust with
   | .ok j => s1.beginConverge now j
   | .error p => (s1, [.panic p])
+
+/-- the justification `beginCommit` attaches to a COMMIT for a non-bottom value -/
+def State.commitJust (s3 : State) : Except PanicSite Just :=
+  let cur := s3.getRound s3.round
+  let nxt := s3.getRound (s3.round + 1)
+  match cur.prepared.findStrongQuorumFor s3.tbl s3.value with
+  | .found sg => .ok { round := s3.round, phase := .prepare, value := s3.value, signers := sg }
+  | .panic p => .error p
+  | .none =>
+    match cur.committed.getJustOf .prepare s3.value with
+    | some j => .ok j
+    | none =>
+      match nxt.prepared.getJustOf .prepare s3.value with
+      | some j => .ok j
+      | none =>
+        match nxt.converged.getJustOf .prepare s3.value with
+        | some j => .ok j
+        | none => .error .commitNoQuorum
 
 /-- `beginCommit` -/
 def State.beginCommit (s : State) (now : Int) : R :=
   let s1 := { s with phase := .commit }
-  let (s2, a) := s1.alarmAfterSynchrony now false
+  let (s2, a) := s1.alarmAfter now s1.roundTimeout
   let s3 := s2.resetReb
   let pre := [Eff.progress s3.round .commit] ++ a
   if s3.value.isEmpty then (s3, pre ++ [.broadcast s3.round .commit s3.value false none])
   else
-    let cur := s3.getRound s3.round
-    let nxt := s3.getRound (s3.round + 1)
-    let jr : Except PanicSite Just :=
-      match cur.prepared.findStrongQuorumFor s3.tbl s3.value with
-      | .found sg => .ok { round := s3.round, phase := .prepare, value := s3.value, signers := sg }
-      | .panic p => .error p
-      | .none =>
-        match cur.committed.getJustOf .prepare s3.value with
-        | some j => .ok j
-        | none =>
-          match nxt.prepared.getJustOf .prepare s3.value with
-          | some j => .ok j
-          | none =>
-            match nxt.converged.getJustOf .prepare s3.value with
-            | some j => .ok j
-            | none => .error .commitNoQuorum
-    match jr with
+    match s3.commitJust with
     | .ok j => (s3, pre ++ [.broadcast s3.round .commit s3.value false (some j)])
     | .error p => (s3, pre ++ [.panic p])
 
@@ -539,52 +545,59 @@ def State.tryConverge (s : State) (now : Int) : R :=
         let s2 := { s1 with proposal := w.chain, value := w.chain }
         s2.beginPrepare now (some w.just)
 
+def State.prepFoundQuorum (s : State) : Bool := (s.getRound s.round).prepared.hasStrongFor s.proposal
+def State.prepNotPossible (s : State) : Bool := !(s.getRound s.round).prepared.couldReach s.tbl s.proposal false
+def State.prepComplete (s : State) (now : Int) : Bool :=
+  s.phaseTimeoutElapsed now && (s.getRound s.round).prepared.fromStrong s.tbl
+/-- the proposal is justified by COMMITs of this round or PREPARE/CONVERGE of the next -/
+def State.prepFoundJust (s : State) : Bool :=
+  ((s.getRound s.round).committed.getJustOf .prepare s.proposal).isSome ||
+  ((s.getRound (s.round + 1)).prepared.getJustOf .prepare s.proposal).isSome ||
+  ((s.getRound (s.round + 1)).converged.getJustOf .prepare s.proposal).isSome
+
+/-- the value chosen at the end of PREPARE -/
+def State.prepareValue (s : State) (now : Int) : State :=
+  if s.prepFoundQuorum || s.prepFoundJust then { s with value := s.proposal }
+  else if s.prepNotPossible || s.prepComplete now then { s with value := [] } else s
+
 /-- `tryPrepare` -/
 def State.tryPrepare (s : State) (now : Int) : R :=
   if s.phase != .prepare then (s, [.err .unexpectedPhase])
   else
-    let cur := s.getRound s.round
-    let nxt := s.getRound (s.round + 1)
-    let foundQuorum := cur.prepared.hasStrongFor s.proposal
-    let notPossible := !cur.prepared.couldReach s.tbl s.proposal false
-    let complete := s.phaseTimeoutElapsed now && cur.prepared.fromStrong s.tbl
-    let foundJust := (cur.committed.getJustOf .prepare s.proposal).isSome ||
-      (nxt.prepared.getJustOf .prepare s.proposal).isSome ||
-      (nxt.converged.getJustOf .prepare s.proposal).isSome
-    let s1 := if foundQuorum || foundJust then { s with value := s.proposal }
-              else if notPossible || complete then { s with value := [] } else s
-    if foundQuorum || foundJust || notPossible || complete then s1.beginCommit now
+    let s1 := s.prepareValue now
+    if s.prepFoundQuorum || s.prepFoundJust || s.prepNotPossible || s.prepComplete now then s1.beginCommit now
     else if s1.shouldRebroadcast now then s1.tryRebroadcast now
     else (s1, [])
 
-/-- `tryCommit(round)` -/
+/-- end of COMMIT without a quorum: adopt some non-bottom committed value as proposal (sway) -/
+def State.commitSway (s : State) (committed : Tally) : State :=
+  match committed.firstNonZero with
+  | some v =>
+    let s' := (s.addCandidate v).1
+    if v != s'.proposal then { s' with proposal := v } else s'
+  | none => s
+
+/-- a strong quorum of COMMIT for bottom in `round` is evidenced by a message of the next round -/
+def State.foundJustBottom (s : State) (round : Nat) : Bool :=
+  ((s.getRound (round + 1)).prepared.getJustOf .commit []).isSome ||
+  ((s.getRound (round + 1)).converged.getJustOf .commit []).isSome
+
+/-- `tryCommit(round)`: the Go `switch` written per outcome of `FindStrongQuorumValue` -/
 def State.tryCommit (s : State) (now : Int) (round : Nat) : R :=
   let committed := (s.getRound round).committed
-  let nxt := s.getRound (round + 1)
   match committed.findStrongQuorumValue with
   | .multiple => (s, [.panic .multipleStrongQuorums])
-  | sqv =>
-    let complete := s.phaseTimeoutElapsed now && committed.fromStrong s.tbl
-    let foundJustBottom := (nxt.prepared.getJustOf .commit []).isSome ||
-      (nxt.converged.getJustOf .commit []).isSome
-    let strongNonZero : Option Chain := match sqv with
-      | .one c => if c.isEmpty then none else some c
-      | _ => none
-    let foundStrong : Bool := match sqv with | .one _ => true | _ => false
-    match strongNonZero with
-    | some c => ({ s with value := c }).beginDecide round
-    | none =>
-      if s.round != round || s.phase != .commit then (s, [])
-      else if foundStrong || foundJustBottom then s.beginNextRound now
-      else if complete then
-        let s1 := match committed.firstNonZero with
-          | some v =>
-            let s' := (s.addCandidate v).1
-            if v != s'.proposal then { s' with proposal := v } else s'
-          | none => s
-        s1.beginNextRound now
-      else if s.shouldRebroadcast now then s.tryRebroadcast now
-      else (s, [])
+  | .one c =>
+    if !c.isEmpty then ({ s with value := c }).beginDecide round
+    else if s.round != round || s.phase != .commit then (s, [])
+    else s.beginNextRound now
+  | .none =>
+    if s.round != round || s.phase != .commit then (s, [])
+    else if s.foundJustBottom round then s.beginNextRound now
+    else if s.phaseTimeoutElapsed now && committed.fromStrong s.tbl then
+      (s.commitSway committed).beginNextRound now
+    else if s.shouldRebroadcast now then s.tryRebroadcast now
+    else (s, [])
 
 /-- `tryDecide` -/
 def State.tryDecide (s : State) (now : Int) : R :=
@@ -623,62 +636,86 @@ def isSpammable (m : Msg) : Bool := m.just.isNone && m.round > 0
 def State.updateCandidatesFromQuality (s : State) : State :=
   (s.addCandidatePrefixes (s.quality.longestPrefixWithQuorum s.input)).1
 
+/-- QUALITY vote (accepted in any round/phase) -/
+def State.recvQuality (s : State) (now : Int) (m : Msg) : R :=
+  let s1 := { s with quality := s.quality.receiveEachPrefix s.tbl m.sender m.value }
+  if s1.phase != .quality then (s1.updateCandidatesFromQuality, [])
+  else s1.tryCurrentPhase now
+
+def State.recvConverge (s : State) (now : Int) (m : Msg) (j : Just) : R :=
+  let rs := s.getRound m.round
+  let s1 := s.setRound m.round { rs with converged := rs.converged.receive m.sender m.value m.rank j }
+  s1.tryCurrentPhase now
+
+def storePrepareJust (q : Tally) (m : Msg) : Tally :=
+  match m.just with | some j => q.receiveJust m.value j | none => q
+
+def storeCommitJust (q : Tally) (m : Msg) : Tally :=
+  match m.just with
+  | some j => if m.value.isEmpty then q else q.receiveJust m.value j
+  | none => q
+
+def State.recvPrepare (s : State) (now : Int) (m : Msg) : R :=
+  let rs := s.getRound m.round
+  match rs.prepared.receive s.tbl m.sender m.value with
+  | none => (s, [.panic .duplicateMessage])
+  | some q =>
+    let s1 := s.setRound m.round { rs with prepared := storePrepareJust q m }
+    s1.tryCurrentPhase now
+
+def State.recvCommit (s : State) (now : Int) (m : Msg) : R :=
+  let rs := s.getRound m.round
+  match rs.committed.receive s.tbl m.sender m.value with
+  | none => (s, [.panic .duplicateMessage])
+  | some q =>
+    if !m.value.isEmpty && m.just.isNone then (s, [.panic .nilJustification])
+    else
+      let s1 := s.setRound m.round { rs with committed := storeCommitJust q m }
+      if s1.phase != .decide then
+        let r1 := s1.tryCommit now m.round
+        if r1.1.phase == .prepare && r1.1.round == m.round && !m.value.isEmpty then
+          andThen r1 (fun st => st.tryCurrentPhase now)
+        else r1
+      else s1.tryCurrentPhase now
+
+def State.recvDecide (s : State) (now : Int) (m : Msg) : R :=
+  match s.decision.receive s.tbl m.sender m.value with
+  | none => (s, [.panic .duplicateMessage])
+  | some q =>
+    let s1 := { s with decision := q }
+    if s1.phase != .decide then
+      andThen (s1.skipToDecide m.value m.just) (fun st => st.tryCurrentPhase now)
+    else s1.tryCurrentPhase now
+
+/-- the checks of `receiveOne` that drop or reject a message before it touches any tally -/
+inductive Pre | reject (k : ErrKind) | drop | accept
+  deriving DecidableEq, Repr
+
+def State.recvPre (s : State) (m : Msg) : Pre :=
+  if !m.instOk then .reject .wrongInstance
+  else if !m.suppOk then .reject .wrongSupp
+  else if !(m.value.isEmpty || hasBase m.value s.input.head?) then .reject .wrongBase
+  else if s.phase == .terminated then .drop
+  else if m.round < s.round && (m.phase == .converge || m.phase == .prepare) then .drop
+  else if m.round > s.round + s.cfg.maxLookahead && isSpammable m then .drop
+  else .accept
+
 /-- `receiveOne`: returns (result, stateChanged) -/
 def State.receiveOne (s : State) (now : Int) (m : Msg) : R × Bool :=
-  if !m.instOk then ((s, [.err .wrongInstance]), false)
-  else if !m.suppOk then ((s, [.err .wrongSupp]), false)
-  else if !(m.value.isEmpty || hasBase m.value s.input.head?) then ((s, [.err .wrongBase]), false)
-  else if s.phase == .terminated then ((s, []), false)
-  else if m.round < s.round && (m.phase == .converge || m.phase == .prepare) then ((s, []), false)
-  else if m.round > s.round + s.cfg.maxLookahead && isSpammable m then ((s, []), false)
-  else
-    let rs := s.getRound m.round
+  match s.recvPre m with
+  | .reject k => ((s, [.err k]), false)
+  | .drop => ((s, []), false)
+  | .accept =>
     match m.phase with
-    | .quality =>
-      let s1 := { s with quality := s.quality.receiveEachPrefix s.tbl m.sender m.value }
-      if s1.phase != .quality then ((s1.updateCandidatesFromQuality, []), true)
-      else (s1.tryCurrentPhase now, true)
+    | .quality => (s.recvQuality now m, true)
     | .converge =>
       if m.value.isEmpty then ((s, [.err .convergeBottom]), false)
       else match m.just with
         | none => ((s, [.err .convergeNilJust]), false)
-        | some j =>
-          let s1 := s.setRound m.round { rs with converged := rs.converged.receive m.sender m.value m.rank j }
-          (s1.tryCurrentPhase now, true)
-    | .prepare =>
-      match rs.prepared.receive s.tbl m.sender m.value with
-      | none => ((s, [.panic .duplicateMessage]), true)
-      | some q =>
-        let q1 := match m.just with | some j => q.receiveJust m.value j | none => q
-        let s1 := s.setRound m.round { rs with prepared := q1 }
-        (s1.tryCurrentPhase now, true)
-    | .commit =>
-      match rs.committed.receive s.tbl m.sender m.value with
-      | none => ((s, [.panic .duplicateMessage]), true)
-      | some q =>
-        if !m.value.isEmpty && m.just.isNone then ((s, [.panic .nilJustification]), true)
-        else
-          let q1 := match m.just with
-            | some j => if m.value.isEmpty then q else q.receiveJust m.value j
-            | none => q
-          let s1 := s.setRound m.round { rs with committed := q1 }
-          if s1.phase != .decide then
-            let r1 := s1.tryCommit now m.round
-            if hasFailure r1.2 then (r1, true)
-            else
-              let s2 := r1.1
-              if s2.phase == .prepare && s2.round == m.round && !m.value.isEmpty then
-                (andThen r1 (fun st => st.tryCurrentPhase now), true)
-              else (r1, true)
-          else (s1.tryCurrentPhase now, true)
-    | .decide =>
-      match s.decision.receive s.tbl m.sender m.value with
-      | none => ((s, [.panic .duplicateMessage]), true)
-      | some q =>
-        let s1 := { s with decision := q }
-        if s1.phase != .decide then
-          (andThen (s1.skipToDecide m.value m.just) (fun st => st.tryCurrentPhase now), true)
-        else (s1.tryCurrentPhase now, true)
+        | some j => (s.recvConverge now m j, true)
+    | .prepare => (s.recvPrepare now m, true)
+    | .commit => (s.recvCommit now m, true)
+    | .decide => (s.recvDecide now m, true)
     | _ => ((s, [.err .unexpectedPhase]), false)
 
 /-- `shouldSkipToRound` + `skipToRound` -/
